@@ -23,6 +23,7 @@ func Creator(ctx context.Context, name string, options map[string]string) (physi
 	defer f.Close()
 
 	fields := make(map[string]octosql.Type)
+	seen := make(map[string]int)
 
 	sc := bufio.NewScanner(f)
 	sc.Buffer(nil, 1024*1024)
@@ -44,12 +45,19 @@ func Creator(ctx context.Context, name string, options map[string]string) (physi
 		}
 
 		o.Visit(func(key []byte, v *fastjson.Value) {
+			seen[string(key)]++
 			if t, ok := fields[string(key)]; ok {
 				fields[string(key)] = octosql.TypeSum(t, getOctoSQLType(v))
 			} else {
 				fields[string(key)] = getOctoSQLType(v)
 			}
 		})
+	}
+	for k, t := range fields {
+		if seen[k] < i {
+			// The key is missing in some of the previewed rows: those rows yield NULL.
+			fields[k] = octosql.TypeSum(t, octosql.Null)
+		}
 	}
 	if sc.Err() != nil {
 		return nil, physical.Schema{}, fmt.Errorf("couldn't scan lines: %w", sc.Err())
